@@ -246,7 +246,7 @@ def xy_cases(tier):
     for transformer in (None, "z-score", "yeo-johnson"):
         for window in ((1, 2) if tier == "quick" else (1, 2, 3)):
             for te in ((5,) if tier == "quick" else (4, 6)):
-                for cut in range(te + 1, 12, 2 if tier == "quick" else 1):
+                for cut in range(te, 12, 2 if tier == "quick" else 1):     # incl. the cut AT the fit date
                     for gappy in (False, True):
                         out.append((transformer, window, te, cut, gappy))
     return out
